@@ -1,6 +1,33 @@
 import Gallia.Lib.Proto
 import Gallia.Model.ClientConc
-open Gallia Gallia.Proto Gallia.ClientConc
+import Gallia.Model.ClientMulti
+import Gallia.Spec.Reply
+open Gallia Gallia.Proto Gallia.ClientConc Gallia.Client Gallia.ClientIO Gallia.ClientMulti
+
+/-
+  Line protocol of the C05 model driver.
+
+    accept <ev> <ev> ...                 lock-discipline acceptor (`Model/ClientConc.lean`), events `want:t got:t rel:t
+                                         unwait:t ended:t w:t r:t c:t`   -> `ok holder=<h> waiters=<..>` | `rejected <index>`
+
+  Multi-task model (`Model/ClientMulti.lean`), stateful within a batch:
+
+    reset
+    task <tid> <born 0|1> <loop 0|1> <round> <round> ...
+        round:  R/<request hex>/<clientTimeout|none>/<clientMaxRetry>/<reqTimeout|none>/<reqMaxRetry|none>/<reads>/<writes>/<reconnects>
+                W/<interval>/<clientTimeout|none>/<reads>/<writes>          one pass of the tester-present worker
+                C/<o|C|T|O>      UDSClient.reconnect()          S/<ms>   asyncio.sleep outside the lock
+                A/<w>            start_cyclic_tester_present    Z/<w>    stop_cyclic_tester_present
+        reads: `,`-separated items `t` TimeoutError, `c` ConnectionError, `e` end of stream, or the message in hex (its
+        class against the request is computed by the model: `classify`); `-` = none; further reads time out.
+        writes: letters o ok, T TimeoutError, C ConnectionError; reconnects: o ok, C, T, O; further ones succeed.
+        -> `ok <outcome of round 0>;<outcome of round 1>;...`   (`-` for rounds that are not requests)
+    sched <choice> ...      r:<t>:<label> task t takes its next step, which must be <label>
+                            (want got rel w r c s<ms> spawn<w> stop<w> join<w>); x:<t> cancellation delivered to t; d:<hex> message delivered
+        -> `ok holder=<h> waiters=<..> inbox=<n> | <tid>=<phase>:<aborted>:<round>:<reads> ...`
+         | `disabled <index> <choice>` | `label <index> <choice> model=<label>`
+    foreign <request hex> <reply hex>   -> genuine | foreign | undecodable | other   (`Spec/Reply.lean` on the request bytes)
+-/
 
 def parseEv (s : String) : Option Event :=
   match s.splitOn ":" with
@@ -14,19 +41,184 @@ def parseEv (s : String) : Option Event :=
   | ["c", t] => t.toNat?.map (.op · .reconnect)
   | _ => none
 
-/-- `accept <ev> <ev> ...` -> `ok holder=<h> waiters=<..>` | `rejected <index>` -/
-def step' (line : String) : String :=
-  match words line with
-  | "accept" :: evs =>
-    match evs.mapM parseEv with
-    | none => "bad-op"
-    | some es =>
-      match firstRejected Sys.init es 0 with
-      | some i => s!"rejected {i}"
-      | none =>
-        match accept Sys.init es with
-        | some s => s!"ok holder={showOptNat s.holder} waiters={",".intercalate (s.waiters.map toString)}"
-        | none => "rejected ?"
-  | _ => "bad-op"
+def acceptLine (evs : List String) : String :=
+  match evs.mapM parseEv with
+  | none => "bad-op"
+  | some es =>
+    match firstRejected Sys.init es 0 with
+    | some i => s!"rejected {i}"
+    | none =>
+      match accept Sys.init es with
+      | some s => s!"ok holder={showOptNat s.holder} waiters={",".intercalate (s.waiters.map toString)}"
+      | none => "rejected ?"
 
-def main : IO Unit := loopLines step'
+/-! ### multi-task model -/
+
+def parseOptNat (s : String) : Option (Option Nat) :=
+  if s == "none" then some none else s.toNat?.map some
+
+inductive RdItem | t | c | e | msg (b : Bytes)
+
+def parseRdItem (s : String) : Option RdItem :=
+  if s == "t" then some .t else if s == "c" then some .c else if s == "e" then some .e else (unhexStr s).map .msg
+
+def parseReads (s : String) : Option (Array RdItem) :=
+  if s == "-" then some #[] else (s.splitOn ",").foldl (fun acc it => match acc, parseRdItem it with
+    | some a, some x => some (a.push x)
+    | _, _ => none) (some #[])
+
+def rdEv (r : UdsReq.Req) : RdItem → Ev
+  | .t => .timeout
+  | .c => .connErr
+  | .e => .empty
+  | .msg b => classify r b
+
+def wevOfChar : Char → Option WEv
+  | 'o' => some .ok | 'T' => some .timeout | 'C' => some .connErr | _ => none
+
+def rcevOfChar : Char → Option RcEv
+  | 'o' => some .ok | 'C' => some (.fail .connErr) | 'T' => some (.fail .timeout) | 'O' => some (.fail .osErr) | _ => none
+
+def parseLetters {α} (f : Char → Option α) (s : String) : Option (Array α) :=
+  if s == "-" then some #[] else s.toList.foldl (fun acc ch => match acc, f ch with
+    | some a, some x => some (a.push x)
+    | _, _ => none) (some #[])
+
+def mkScript (r : UdsReq.Req) (rd : Array RdItem) (wr : Array WEv) (rc : Array RcEv) : Script :=
+  ⟨fun j => wr.getD j .ok, fun k => (rd[k]?.map (rdEv r)).getD .timeout, fun m => rc.getD m .ok⟩
+
+def showOut : Out → String
+  | .reply k => s!"reply:{k}"
+  | .missing c => s!"missing:{if c then 1 else 0}"
+  | .illegal k => s!"illegal:{k}"
+  | .stuck => "stuck"
+  | .connEscaped k => s!"escaped:{k}"
+
+def showRcFault : RcFault → String | .connErr => "C" | .timeout => "T" | .osErr => "O"
+
+def showOutX : OutX → String
+  | .base o => showOut o
+  | .reconnectFailed m e => s!"rcfail:{m}:{showRcFault e}"
+
+/-- a parsed round and the outcome to print for it -/
+def parseRound (s : String) : Option (Round × String) :=
+  match s.splitOn "/" with
+  | ["R", req, ct, cm, rt, rm, rds, wrs, rcs] =>
+    match unhexStr req, parseOptNat ct, cm.toNat?, parseOptNat rt, parseOptNat rm, parseReads rds,
+        parseLetters wevOfChar wrs, parseLetters rcevOfChar rcs with
+    | some rb, some ct, some cm, some rt, some rm, some rd, some wr, some rc =>
+      let r := UdsReq.decode rb
+      let c := resolveX ct cm rt rm 0 Limits.std
+      let io := mkScript r rd wr rc
+      some (Round.request c r io, showOutX (requestX c io).out)
+    | _, _, _, _, _, _, _, _ => none
+  | ["W", iv, ct, rds, wrs] =>
+    match iv.toNat?, parseOptNat ct, parseReads rds, parseLetters wevOfChar wrs with
+    | some iv, some ct, some rd, some wr =>
+      let r := UdsReq.Req.testerPresent false
+      let c := resolveX ct 0 none (some 0) 0 Limits.std
+      let io := mkScript r rd wr #[]
+      some (Round.worker iv c io, showOutX (requestX (workerCfg c) io).out)
+    | _, _, _, _ => none
+  | ["C", res] => match res.toList with
+    | [ch] => (rcevOfChar ch).map fun r => (Round.reconnect r, "-")
+    | _ => none
+  | ["S", d] => d.toNat?.map fun d => (Round.sleep d, "-")
+  | ["A", w] => w.toNat?.map fun w => (Round.startWorker w, "-")
+  | ["Z", w] => w.toNat?.map fun w => (Round.stopWorker w, "-")
+  | _ => none
+
+structure DState where
+  progs : List (Tid × Prog) := []
+  born : List Tid := []
+
+def DState.P (d : DState) : Progs := fun t =>
+  match d.progs.find? (·.1 == t) with
+  | some (_, p) => p
+  | none => Prog.seq []
+
+def labelOf : Act → String
+  | .acquire => "want"
+  | .release => "rel"
+  | .io (.wr ..) => "w"
+  | .io (.rd ..) => "r"
+  | .io (.sl d) => s!"s{d}"
+  | .io (.rc _) => "c"
+  | .spawn w => s!"spawn{w}"
+  | .stop w => s!"stop{w}"
+  | .join w => s!"join{w}"
+
+def nextLabel (s : MSys) (t : Tid) : String :=
+  let ts := s.tasks t
+  match ts.phase with
+  | .waiting => "got"
+  | .unborn => "unborn"
+  | .done => "done"
+  | _ => match ts.todo with
+    | a :: _ => labelOf a
+    | [] => "next"
+
+def parseChoice (s : String) : Option (Choice × Option String) :=
+  match s.splitOn ":" with
+  | ["r", t, l] => t.toNat?.map fun t => (.run t, some l)
+  | ["x", t] => t.toNat?.map fun t => (.cancel t, none)
+  | ["d", h] => (unhexStr h).map fun b => (.deliver b, none)
+  | _ => none
+
+def showPhase : Phase → String
+  | .unborn => "unborn" | .idle => "idle" | .waiting => "waiting" | .holding => "holding" | .done => "done"
+
+def showTask (s : MSys) (t : Tid) : String :=
+  let ts := s.tasks t
+  let rs := ",".intercalate (ts.reads.map fun (n, k, b) => s!"{n}.{k}.{hexOrDash b}")
+  s!"{t}={showPhase ts.phase}:{if ts.aborted then 1 else 0}:{ts.round}:{if rs.isEmpty then "-" else rs}"
+
+partial def runSched (P : Progs) (tids : List Tid) (s : MSys) (cs : List String) (i : Nat) : String :=
+  match cs with
+  | [] =>
+    let lk := s!"holder={showOptNat s.lock.holder} waiters={",".intercalate (s.lock.waiters.map toString)} inbox={s.inbox.length}"
+    s!"ok {lk} | {" ".intercalate (tids.map (showTask s))}"
+  | c :: rest =>
+    match parseChoice c with
+    | none => "bad-op"
+    | some (ch, lab) =>
+      let labOk := match ch, lab with
+        | .run t, some l => if nextLabel s t == l then none else some (nextLabel s t)
+        | _, _ => none
+      match labOk with
+      | some m => s!"label {i} {c} model={m}"
+      | none =>
+        match mstep P s ch with
+        | none => s!"disabled {i} {c}"
+        | some s' => runSched P tids s' rest (i + 1)
+
+def classOf (q b : Bytes) : String :=
+  let r := UdsReq.decode q
+  if Reply.genuineB r b then "genuine" else if Reply.foreignB r b then "foreign"
+  else if Reply.undecodableB r b then "undecodable" else "other"
+
+def stepD (d : DState) (line : String) : DState × String :=
+  match words line with
+  | "accept" :: evs => (d, acceptLine evs)
+  | ["reset"] => ({}, "ok")
+  | "task" :: tid :: born :: loop :: rounds =>
+    match tid.toNat?, rounds.mapM parseRound with
+    | some t, some rs =>
+      let rl := rs.map (·.1)
+      let p : Prog := if loop == "1" then
+          ⟨fun n => rl.getD n (rl.getLast?.getD (Round.sleep 0)), none⟩
+        else Prog.seq rl
+      ({ progs := (t, p) :: d.progs, born := if born == "1" then t :: d.born else d.born },
+        "ok " ++ ";".intercalate (rs.map (·.2)))
+    | _, _ => (d, "bad-op")
+  | "sched" :: cs =>
+    let P := d.P
+    let tids := (d.progs.map (·.1)).reverse
+    (d, runSched P tids (MSys.init P (fun t => d.born.contains t)) cs 0)
+  | ["foreign", q, b] =>
+    match unhexStr q, unhexStr b with
+    | some q, some b => (d, classOf q b)
+    | _, _ => (d, "bad-op")
+  | _ => (d, "bad-op")
+
+def main : IO Unit := loopState ({} : DState) stepD
